@@ -453,6 +453,9 @@ struct Filename {
     full: OsString,
     // the "display" name, i.e. the name that appears in an /include directive or an error message
     display: String,
+    // for an included file: the name in the /include directive of the main file through which this file is reached,
+    // directly or through further includes. Writing that one directive reproduces everything it pulled in.
+    top_include: Option<String>,
 }
 
 impl Filename {
@@ -460,6 +463,7 @@ impl Filename {
         Self {
             full,
             display: display.to_string(),
+            top_include: None,
         }
     }
 }
@@ -469,6 +473,7 @@ impl From<&str> for Filename {
         Self {
             full: OsString::from(value),
             display: String::from(value),
+            top_include: None,
         }
     }
 }
@@ -478,6 +483,7 @@ impl From<&Path> for Filename {
         Self {
             display: value.to_string_lossy().to_string(),
             full: OsString::from(value),
+            top_include: None,
         }
     }
 }
@@ -487,6 +493,7 @@ impl From<OsString> for Filename {
         Self {
             display: value.to_string_lossy().to_string(),
             full: value,
+            top_include: None,
         }
     }
 }
